@@ -60,3 +60,16 @@ Theorem C19_bandwidth_ratio : forall (d : nat) (cin num den H W : Z), (0 < den)%
   (cout * H * W * den = num * (cin * (2 ^ Z.of_nat d * H) * (2 ^ Z.of_nat d * W)))%Z.
 Proof. exact bandwidth_ratio. Qed.
 Print Assumptions C19_bandwidth_ratio.
+
+(* the Kurka-2020 feedback encoder / decoder (nn.ModuleList applied in order; GDN / PReLU / Sigmoid keep the size) *)
+Theorem C19_kurka_shapes : forall h, through kurka_encoder (4 * h)%Z = h /\ through kurka_decoder (through kurka_encoder (4 * h)%Z) = (4 * h)%Z.
+Proof.
+  assert (He : down_only kurka_encoder = true) by (vm_compute; reflexivity).
+  assert (Hd : up_only kurka_decoder = true) by (vm_compute; reflexivity).
+  assert (Hc : count_half kurka_encoder = 2%nat) by (vm_compute; reflexivity).
+  assert (Hu : count_double kurka_decoder = 2%nat) by (vm_compute; reflexivity).
+  intro h. split.
+  - pose proof (encoder_shape _ He h) as E. rewrite Hc in E. exact E.
+  - pose proof (autoencoder_shape _ _ He Hd ltac:(rewrite Hc, Hu; reflexivity) h) as E. rewrite Hc in E. exact E.
+Qed.
+Print Assumptions C19_kurka_shapes.
